@@ -447,7 +447,7 @@ pub fn generate(seed: u64) -> SockScenario {
             let at = g.rng.usize_below(peer.len() + 1);
             g.seq += 1;
             let m = format!("zzinvalid{}", g.seq);
-            let bad = match g.rng.below(16) {
+            let bad = match g.rng.below(22) {
                 0 => PeerOp::Binary(g.rng.range(0, 40) as u32),
                 1 => PeerOp::BadUtf8,
                 2 => PeerOp::Close,
@@ -463,7 +463,14 @@ pub fn generate(seed: u64) -> SockScenario {
                 12 => PeerOp::Raw { text: format!("@event({m}) {m}"), class: "invalid".into() },
                 13 => PeerOp::Raw { text: format!("{{node:{m},lane:{m}}}"), class: "invalid".into() },
                 14 => PeerOp::Raw { text: format!("@link(node:\"{m},lane:{m})"), class: "invalid".into() },
-                _ => PeerOp::Raw { text: format!(" @event(node:{m},lane:{m})"), class: "invalid".into() },
+                15 => PeerOp::Raw { text: format!(" @event(node:{m},lane:{m})"), class: "invalid".into() },
+                // Slot values that are empty, blank or end inside a token.
+                16 => PeerOp::Raw { text: format!("@event(node:,lane:{m}) {m}"), class: "invalid".into() },
+                17 => PeerOp::Raw { text: format!("@command(node:{m},lane:) {m}"), class: "invalid".into() },
+                18 => PeerOp::Raw { text: format!("@link(node: ,lane:{m})"), class: "invalid".into() },
+                19 => PeerOp::Raw { text: format!("@event(node:{m},lane:\t) {m}"), class: "invalid".into() },
+                20 => PeerOp::Raw { text: format!("@sync(node:\"{m}\\,lane:{m})"), class: "invalid".into() },
+                _ => PeerOp::Raw { text: format!("@event(node:{m},lane:\"{m}) {m}"), class: "invalid".into() },
             };
             peer.insert(at, bad);
         }
